@@ -36,6 +36,7 @@ THEOREMS = [
     "C02_all_early_witness_twice",
     "C02_all_never_early_repaired",
     "C02_all_round_repaired",
+    "C02_refines_queue_from",
     "C02_refines_queue",
     "C02_refines_queue_values",
     "C02_value",
